@@ -6,6 +6,9 @@ case expands it into real objects, pushes it through `emg3d.save` /
 `emg3d.load` (h5, npz, json), `emg3d.io.convert` (six pairs) or the
 `to_file` / `from_file` methods and compares what comes back with the
 checker's own deep equality (never emg3d's `__eq__`, which is `allclose`).
+The reference is a snapshot taken before the save; the saved objects must
+still canonise to it afterwards.  Documented behaviour of `verb`, file names
+and an existing file of the same name are part of each case.
 """
 import contextlib
 import io
@@ -21,37 +24,70 @@ import numpy as np
 from hypothesis import strategies as st
 
 from vp import gen
-from vp.framework import EMG3D_DIR, VERIF, Violation
+from vp.framework import EMG3D_DIR, VERIF, HarnessError, Violation
 
 RULE = ("Recursive spec of an object graph: dictionaries nested up to depth 4 "
         "holding int/float(NaN,inf)/complex/bool/str(unicode, empty)/None, "
-        "real/complex/int arrays of dimension 0..3 (empty, C/F order, seven "
-        "dtypes, NaN/inf sprinkled) and instances of all 12 registered "
+        "numpy scalars (8 dtypes, not 0-d arrays), "
+        "real/complex/int arrays of dimension 0..4 (empty, C/F order, 13 "
+        "dtypes incl. float16/uint64, NaN/inf sprinkled, one in 40 with "
+        ">1e4 elements; strided, reversed, transposed, zero-stride and "
+        "read-only views) and instances of all 12 registered "
         "classes (TensorMesh; Model: 6 mappings x 4 anisotropy cases x "
         "mu_r/eps_r, also on a discretize mesh; Field: electric/magnetic x "
-        "frequency/Laplace/None x real/complex; 5 Tx and 2 Rx classes in all "
+        "frequency/Laplace/None x real/complex, single precision if "
+        "frequency is None, frequency as float/int/numpy.float64; 5 Tx and 2 "
+        "Rx classes in all "
         "coordinate formats, complex strengths, relative receivers; Survey: "
         "1-3 sources, 0-3 receivers, custom keys, several data sets with "
         "NaN, scalar/array noise floor and relative error, explicit standard "
-        "deviation, name/date/info; Simulation: all seven gridding modes, "
-        "gridding/solver/tqdm/layered options, file_dir, and three "
+        "deviation, name/date/info, and in 30 % a history between "
+        "construction and save: noise setters array->float/None, "
+        "standard_deviation=None, select(), data['x']=..., copy(), "
+        "from_dict(to_dict()); Simulation: all seven gridding modes, "
+        "gridding/solver/tqdm/layered options, file_dir, copy(), and "
         "per-process cached *computed* simulations: fields only, +misfit, "
-        "+gradient).  Each case is one graph x one of {h5, npz, json, six "
-        "convert pairs} x save options (sub-check graph) or one "
-        "Survey/Simulation x format x what x name through to_file/from_file "
-        "(sub-check tofile).  Equality (checker's own, never emg3d's "
+        "+gradient, one of two fields only, file_dir (stores hold file "
+        "names), automatic 'single' gridding (grid != model grid), layered, "
+        "three source types with custom keys and Krylov info, after "
+        "clean('keepresults') / clean('computed')).  A node may also be an "
+        "instance built earlier in the same graph or a part of it (the same "
+        "object under two keys: sim + sim.survey + sim.model + grid + "
+        "source, the same array twice).  Each case is one graph x one of "
+        "{h5, npz, json, six "
+        "convert pairs} x save options (compression gzip/lzf/0/1/9, "
+        "json_indent) x verb of save and of load in {-1, 0, 1, not given} x "
+        "file name (several dots, blank, unicode, other format's extension "
+        "inside; relative path; a file of that name with other content "
+        "exists) (sub-check graph) or one "
+        "Survey/Simulation x format x what x name x verb x file name through "
+        "to_file/from_file, for simulations followed in 50 % by a plain "
+        "emg3d.save of the same object (sub-check tofile).  Equality "
+        "(checker's own, never emg3d's "
         "allclose __eq__): same class, recursively equal to_dict() contents "
-        "and equal public attributes; arrays equal in shape, dtype and every "
+        "and equal public attributes (for a Simulation also the stored "
+        "tqdm_opts, computed flag and _input_sc2); arrays equal in shape, "
+        "dtype and every "
         "value incl. NaN positions; scalars equal in value and kind "
         "(bool/int/float/complex/str/None; 0-d numeric arrays unwrapped; "
-        "numpy scalar dtypes compared when both sides are numpy).  A convert "
+        "numpy scalar dtypes compared when both sides are numpy).  The "
+        "reference tree is a snapshot taken before the save; after the save "
+        "the live objects must still canonise to it (save/to_file does not "
+        "change what it saves).  verb: 1/default prints, 0 is silent, -1 "
+        "returns the info string (second item of a tuple for load / "
+        "from_file).  A convert "
         "case compares load(B) with load(A) and attributes a difference to "
         "format B if load+save by hand shows it too, else to convert.  "
         "Excluded and counted (classes excl:*): reserved key tokens '>', "
-        "'/', '__array', '__complex', '__class__'; the string value "
-        "'NoneType'; boolean arrays.  Not generated: NUL/surrogate "
+        "'/', '__array', '__complex', '__class__', '__shape-'; the string "
+        "value 'NoneType'; boolean arrays; behind a flag (off, judged "
+        "outside the domain): the key ''.  A bare discretize.TensorMesh as "
+        "value (own key, gridding_opts, ref to model.grid) is generated and "
+        "expected back as the equal emg3d.TensorMesh.  Not "
+        "generated: NUL/surrogate "
         "characters, ints outside int64, non-string keys (documented: keys "
-        "are cast to str), lists as dictionary values.  Non-trivial = graph "
+        "are cast to str), lists as dictionary values, non-native byte "
+        "order, compression=None, verb for convert.  Non-trivial = graph "
         "holds >=1 emg3d instance and >=1 array; distinct by (mode, node "
         "types in order, set of classes hit).")
 ASSUMPTIONS = [
@@ -63,9 +99,19 @@ ASSUMPTIONS = [
     "documented; emg3d's private readers are used for *diagnosis* of the "
     "signature only, never to decide pass/fail",
     "sign of zero and NaN payload bits are not compared; memory layout "
-    "(C/F order) of a loaded array is not content",
+    "(C/F order, strides, writeable flag) of a loaded array is not content",
     "the list of known findings is only used to order the differences of "
     "one case (an unlisted difference is reported before a listed one)",
+    "an exception raised while the checker canonises loaded data is a "
+    "harness error unless a frame of emg3d raised it while the same "
+    "evaluation of the saved object had gone through (then: the loaded "
+    "object does not behave like the saved one); private attributes are "
+    "read with a default",
+    "saving an object is expected to leave it unchanged (as seen through "
+    "to_dict() and the public attributes); nothing but emg3d's info line "
+    "is printed to stdout by save/load at verb=1, nothing at verb<=0",
+    "a discretize.TensorMesh is equal to the emg3d.TensorMesh of the same "
+    "h and origin (documented: stored as if created using emg3d)",
 ]
 SHARDS = {'quick': 1, 'thorough': 16}
 
@@ -88,10 +134,27 @@ except OSError:                                      # pragma: no cover
 # Strategies (JSON-able specs)
 # ======================================================================
 SEED = gen.SEED
+
+# Generator branches that reach a candidate defect of the tree under test
+# (reported in /tmp/audit/C17_finding.md, not yet decided).  The spec always
+# carries the draw (so replay files stay valid); with the flag off the builder
+# substitutes the nearest accepted input and counts `excl:*_disabled`.
+# C17_ENABLE=emptykey switches a disabled one on for one run (triage).
+_EN = set(filter(None, os.environ.get('C17_ENABLE', '').split(',')))
+# A bare discretize.TensorMesh as a saved value (manual and io.py limitation
+# 3: "stored as if they were created using emg3d"): save raised / the npz
+# file could not be loaded until repair 29942fc; on since then (replays
+# findings/C17/dmesh_*.json).  C17_ENABLE=nodmesh switches it off.
+ENABLE_DMESH = 'nodmesh' not in _EN
+# The key '' in a nested dict: not documented either way; h5 cannot store it
+# (HDF5 link names are not empty), npz drops the entry silently.  Treated as
+# outside the property's domain (a *name* is expected), see the finding file.
+ENABLE_EMPTY_KEY = 'emptykey' in _EN
+
 KEY_ALPH = 'abcXYZ019_- .éß雪'
 KEY_HEAD = 'abcXYZ019_é雪'
 RESERVED_KEYS = ['a>b', 'a/b', 'x__array', 'y__complex', '__class__',
-                 'p__array-float64', '>']
+                 'p__array-float64', '>', 'q__shape-2x3', 'r__shape-']
 KEY = st.one_of(
     st.sampled_from(['a', 'b', 'data', 'x1', 'key two', 'ü', 'f-1', '0',
                      '_p', 'A.b', 'grid', 'model', 'survey', 'name']),
@@ -101,6 +164,7 @@ KEY = st.one_of(
     st.sampled_from(['a', 'b', 'c', 'd']),
     st.integers(0, 39).flatmap(
         lambda k: st.sampled_from(RESERVED_KEYS) if k == 0
+        else st.just('') if k == 1
         else st.sampled_from(['k', 'kk', 'k_1'])),
 )
 TEXT = st.one_of(
@@ -117,16 +181,29 @@ FLOAT = st.one_of(
                      1e-300, 1.7976931348623157e308, 5e-324, 0.1, 1/3]))
 INT = st.one_of(st.integers(-5, 5), st.integers(-2**63, 2**63-1))
 
-DTYPES = (['float64']*5 + ['complex128']*4 + ['int64']*2 +
-          ['float32', 'int32', 'uint8', 'complex64', 'bool'])
+DTYPES = (['float64']*10 + ['complex128']*8 + ['int64']*4 +
+          ['float32', 'int32', 'uint8', 'complex64', 'bool']*2 +
+          ['float16', 'int8', 'int16', 'uint16', 'uint32', 'uint64'])
 DIM = st.sampled_from([0, 1, 1, 2, 2, 3, 3, 4])
+VIEWS = ['none']*6 + ['step2', 'rev', 'T', 'readonly', 'bcast']
 ARRAY = st.fixed_dictionaries({
     't': st.just('array'),
     'dtype': st.sampled_from(DTYPES),
-    'shape': st.lists(DIM, min_size=0, max_size=3),
+    'shape': st.lists(DIM, min_size=0, max_size=3).flatmap(
+        lambda sh: st.just(sh) if len(sh) < 3 else st.sampled_from(
+            [sh]*5 + [sh + [2]])),                     # 4-D now and then
     'order': st.sampled_from(['C', 'F']),
     'special': st.sampled_from(['none', 'none', 'nan', 'inf', 'partial']),
+    'view': st.sampled_from(VIEWS),
+    'big': st.integers(0, 39).map(lambda k: k == 0),
     'seed': SEED,
+})
+NPSCALAR = st.fixed_dictionaries({
+    't': st.just('npscalar'),
+    'dtype': st.sampled_from(['int64', 'int32', 'uint8', 'float64',
+                              'float32', 'complex128', 'complex64', 'bool_']),
+    'i': st.one_of(st.integers(-5, 5), st.integers(-2**63, 2**63-1)),
+    're': FLOAT, 'im': FLOAT,
 })
 
 
@@ -144,6 +221,7 @@ SCALAR = st.one_of(
     st.booleans().map(lambda v: {'t': 'bool', 'v': v}),
     _w(TEXT).map(lambda v: {'t': 'str', 'v': v}),
     st.just({'t': 'none'}),
+    _w(NPSCALAR), _w(NPSCALAR), _w(NPSCALAR),
 )
 
 # Heavy objects: only the structural choices are Hypothesis draws, the rest
@@ -195,12 +273,32 @@ def _x_field(s):
     s['cplx'] = bool(rng.random() < 0.5)          # dtype if frequency is None
     s['data'] = 'none' if rng.random() < 0.25 else 'random'
     s['dgrid'] = bool(rng.random() < 0.25)
+    # (new draws last: the older ones keep their values for a given seed)
+    # frequency None: the dtype of the data (or `dtype`) is the field's dtype
+    s['fdtype'] = _pick(rng, [None, None, 'single'])
+    # how the frequency is handed over: float | int | numpy.float64
+    s['ftype'] = _pick(rng, ['float']*3 + ['int', 'np'])
+    s['hist'] = ['copy'] if rng.random() < 0.15 else []
     return s
 
 
 def _x_model(s):
-    s['dgrid'] = bool(gen.rng_of(s['model']['seed'], 123).random() < 0.25)
+    rng = gen.rng_of(s['model']['seed'], 123)
+    s['dgrid'] = bool(rng.random() < 0.25)
+    s['hist'] = ['copy'] if rng.random() < 0.15 else []
     return s
+
+
+SURVEY_OPS = ['nf_array_float', 'nf_array_none', 're_array_float',
+              'std_none', 'select', 'select_src', 'data_assign', 'copy',
+              'from_dict']
+
+
+def _x_hist(rng):
+    """History of a Survey between construction and save (public API)."""
+    if rng.random() < 0.7:
+        return []
+    return [_pick(rng, SURVEY_OPS) for _ in range(int(rng.integers(1, 3)))]
 
 
 def _x_survey(s):
@@ -217,6 +315,7 @@ def _x_survey(s):
         s[k] = {'kind': s[k], 'seed': int(rng.integers(0, 2**32))}
     for k in ('name', 'date', 'info'):
         s[k] = _opt_text(rng)
+    s['hist'] = _x_hist(rng)
     return s
 
 
@@ -287,11 +386,15 @@ def _x_sim(s):
     s['rint'] = _pick(rng, ['cubic', 'linear'])
     s['layered_opts'] = _pick(rng, LAYERED_OPTS)
     s['file_dir'] = bool(rng.random() < 1/6)
+    s['grid2']['dgrid'] = bool(rng.random() < 0.2)
+    s['hist'] = ['copy'] if rng.random() < 0.1 else []
     return s
 
 
 GRID = gen.grid_spec([1, 2, 3, 4])
-MESH = st.fixed_dictionaries({'t': st.just('mesh'), 'grid': GRID})
+MESH = st.fixed_dictionaries({
+    't': st.just('mesh'), 'grid': GRID,
+    'dgrid': st.integers(0, 3).map(lambda k: k == 0)})
 MODEL = st.fixed_dictionaries({'t': st.just('model'), 'grid': GRID,
                                'model': gen.model_spec()}).map(_x_model)
 FIELD = st.fixed_dictionaries({
@@ -338,9 +441,20 @@ SIM = st.fixed_dictionaries({
     'layered': st.sampled_from([False]*4 + [True]),
     'seed': SEED,
 }).map(_x_sim)
+SIMC_VARIANTS = ['full']*4 + ['partial', 'file_dir', 'auto_single',
+                              'layered', 'two_src', 'keepresults', 'cleaned']
 SIMC = st.fixed_dictionaries({
     't': st.just('simc'),
     'stage': st.sampled_from(['computed', 'misfit', 'gradient']),
+    'variant': st.sampled_from(SIMC_VARIANTS),
+})
+# The same instance (or a part of it) under a second key: the everyday
+# save(sim=sim, survey=sim.survey, grid=model.grid).
+REF = st.fixed_dictionaries({
+    't': st.just('ref'),
+    'to': st.integers(0, 7),
+    'part': st.sampled_from(['self', 'self', 'survey', 'model', 'grid',
+                             'source', 'array']),
 })
 OBJ = st.one_of(MESH, MODEL, FIELD, TX, RX, SURVEY, SURVEY, SIM, SIMC)
 LEAF = st.one_of(_w(SCALAR), ARRAY)
@@ -348,19 +462,33 @@ LEAF = st.one_of(_w(SCALAR), ARRAY)
 
 def dict_s(depth, min_size=0):
     """Dictionary node with values of nesting depth <= depth below it."""
-    opts = [_w(LEAF), _w(LEAF), _w(OBJ), _w(OBJ)]
+    opts = [_w(LEAF)]*4 + [_w(OBJ)]*4 + [REF]
     if depth > 0:
-        opts += [st.deferred(lambda: dict_s(depth-1))]*2
+        opts += [st.deferred(lambda: dict_s(depth-1))]*4
     return st.lists(st.tuples(KEY, st.one_of(*opts)).map(list),
                     min_size=min_size, max_size=4
                     ).map(lambda it: {'t': 'dict', 'items': it})
 
 
+# verb: None = not passed (the documented default applies), else the value.
+VERB = st.sampled_from([0, 0, 0, -1, -1, 1, None])
+# File name stems (the format's extension is appended) and whether the path
+# is handed over relative to the working directory (documented: "absolute
+# or relative path") / a file of that name with other content exists already.
+STEM = st.sampled_from(['f']*4 + ['a.b', 'my file ü', 'x.h5', 'y.npz.json',
+                                  '.hidden'])
+FILEOPTS = {
+    'verb': st.tuples(VERB, VERB).map(list),          # [save, load]
+    'stem': STEM,
+    'relative': st.integers(0, 5).map(lambda k: k == 0),
+    'overwrite': st.integers(0, 7).map(lambda k: k == 0),
+}
 GRAPH = st.fixed_dictionaries({
     'mode': st.sampled_from(FORMATS*2 + PAIRS),
-    'compression': st.sampled_from(['gzip', 'gzip', 'lzf', 1]),
+    'compression': st.sampled_from(['gzip']*3 + ['lzf', 1, 9, 0]),
     'json_indent': st.sampled_from([2, 2, None, 0]),
     'root': dict_s(3, min_size=1),          # root + 3 levels = depth 4
+    **FILEOPTS,
 })
 TOFILE = st.fixed_dictionaries({
     'fmt': st.sampled_from(FORMATS),
@@ -368,6 +496,10 @@ TOFILE = st.fixed_dictionaries({
     'name': st.one_of(st.none(), KEY),
     'what': st.sampled_from(['computed', 'computed', 'results', 'all',
                              'plain']),
+    # serialise the same object once more afterwards (emg3d.save, default
+    # `what`): the to_file flag must not outlive the call
+    'again': st.booleans(),
+    **FILEOPTS,
 })
 
 
@@ -377,10 +509,17 @@ TOFILE = st.fixed_dictionaries({
 def _sanitize_key(k, rec):
     new = k
     for tok, rep in (('>', '_'), ('/', '_'), ('__array', '_array'),
-                     ('__complex', '_complex'), ('__class__', '_class_')):
+                     ('__complex', '_complex'), ('__class__', '_class_'),
+                     ('__shape-', '_shape-')):
         new = new.replace(tok, rep)
     if new != k:
         rec.cls('excl:reserved_key_token')
+    if new == '':
+        if ENABLE_EMPTY_KEY:
+            rec.cls('key:empty')
+        else:
+            rec.cls('excl:empty_key_disabled')
+            new = 'empty_'
     return new
 
 
@@ -398,11 +537,31 @@ def build_array(s, rec, salt=5):
         rec.cls('excl:bool_array')
         dtype = 'uint8'
     dt = np.dtype(dtype)
-    shape = tuple(s['shape'])
+    shape = list(s['shape'])
     n = int(np.prod(shape, dtype=int))
+    if s.get('big', False) and n > 0 and shape:         # > 1e4 elements
+        shape[0] *= 12007//n + 1
+        n = int(np.prod(shape, dtype=int))
+        rec.cls('array:big')
+    shape = tuple(shape)
+    view = s.get('view', 'none') if (shape and n) else 'none'
+    perm = None
+    if view == 'step2':               # every second row of a larger buffer
+        n, full = 2*n, (2*shape[0],) + shape[1:]
+    elif view == 'T':                 # general transposition of a C buffer
+        perm = [int(i) for i in rng.permutation(len(shape))]
+        full = tuple(shape[perm.index(i)] for i in range(len(shape)))
+    elif view == 'bcast':             # zero strides along the first axis
+        n, full = n//shape[0], (1,) + shape[1:]
+    else:
+        full = shape
+    # exponent range of the random values, by precision of the dtype
+    ex = {2: 4, 4: 30, 8: 30, 16: 30}[dt.itemsize] if dt.kind in 'fc' else 0
+    if dt == np.dtype('complex64'):
+        ex = 30
 
     def reals(k):
-        v = rng.standard_normal(k)*10.0**rng.integers(-30, 30, size=k)
+        v = rng.standard_normal(k)*10.0**rng.integers(-ex, ex, size=k)
         return v
     if dt.kind == 'f':
         a = reals(n).astype(dt)
@@ -425,14 +584,45 @@ def build_array(s, rec, salt=5):
         else:                      # finite real part, non-finite imag part
             a.imag[idx] = rng.choice([np.nan, np.inf, -np.inf])
             rec.cls('array:complex_partial_nonfinite')
-    a = a.reshape(shape)
+    a = a.reshape(full)
     if a.ndim > 0:              # (as*array would turn 0-d into 1-d)
         a = (np.asfortranarray(a) if s['order'] == 'F'
              else np.ascontiguousarray(a))
-    rec.cls(f"array:ndim={a.ndim}", f"array:dtype={dtype}")
+    if view == 'step2':
+        a = a[::2]
+    elif view == 'rev':
+        a = a[::-1]
+    elif view == 'T':
+        a = np.transpose(a, perm)
+    elif view == 'bcast':
+        a = np.broadcast_to(a, shape)
+    elif view == 'readonly':
+        a.setflags(write=False)
+    if a.shape != shape:                                    # harness error
+        raise HarnessError(f"build_array: {a.shape} != {shape} ({view})")
+    rec.cls(f"array:ndim={a.ndim}", f"array:dtype={dtype}",
+            f"array:view={view}")
     if a.size == 0:
         rec.cls("array:empty" + (":nd" if a.ndim > 1 else ""))
     return a
+
+
+def build_npscalar(s, rec):
+    """numpy scalar (not a 0-d array) of the drawn dtype."""
+    dt = np.dtype(s['dtype'])
+    with np.errstate(all='ignore'):
+        if dt.kind == 'b':
+            v = np.bool_(int(s['i']) % 2 == 1)
+        elif dt.kind in 'iu':
+            v = np.array(int(s['i']), dtype='int64').astype(dt)[()]  # wraps
+        elif dt.kind == 'f':
+            v = dt.type(float(s['re']))
+        else:
+            v = dt.type(complex(float(s['re']), float(s['im'])))
+    if type(v) is not dt.type:                              # harness error
+        raise HarnessError(f"build_npscalar: {type(v)} for {dt}")
+    rec.cls(f"npscalar:{dt.name}")
+    return v
 
 
 def _container(x, kind):
@@ -559,6 +749,39 @@ def build_survey(s, rec):
     std = bool(s['std'] and nr > 0)
     if std:
         sv.standard_deviation = 10.0**rng.uniform(-16, -10, shape)
+    for op in (s.get('hist', []) if nr > 0 else []):
+        # What a user does between construction and save (public API only).
+        hr = gen.rng_of(s['seed'], 26)
+        if op == 'nf_array_float':        # array (data set) -> one value
+            sv.noise_floor = 10.0**hr.uniform(-18, -12, sv.shape)
+            sv.noise_floor = 2e-15
+        elif op == 'nf_array_none':
+            sv.noise_floor = 10.0**hr.uniform(-18, -12, sv.shape)
+            sv.noise_floor = None
+        elif op == 're_array_float':
+            sv.relative_error = 10.0**hr.uniform(-3, -1, sv.shape)
+            sv.relative_error = 0.03
+        elif op == 'std_none':            # documented way to reset it
+            sv.standard_deviation = 10.0**hr.uniform(-16, -10, sv.shape)
+            sv.standard_deviation = None
+            std = False
+        elif op == 'select':
+            sv = sv.select(remove_empty=bool(hr.random() < 0.5))
+        elif op == 'select_src':
+            sv = sv.select(sources=[list(sv.sources)[-1]],
+                           frequencies=[list(sv.frequencies)[0]],
+                           remove_empty=False)
+        elif op == 'data_assign':         # the data are an xarray Dataset
+            sv.data['added'] = sv.data.observed*(2.0-0.5j)
+        elif op == 'copy':
+            sv = sv.copy()
+        elif op == 'from_dict':
+            sv = emg3d.Survey.from_dict(sv.to_dict())
+        else:
+            raise HarnessError(f"survey history: unknown op {op}")
+        rec.cls(f"hist:survey:{op}")
+        if 0 in sv.shape:      # (select dropped everything: documented)
+            rec.cls('hist:survey:emptied')
     rec.cls(f"survey:nrec={'0' if nr == 0 else '>0'}",
             f"survey:nf={'array' if np.ndim(nfl) else s['nf']['kind']}",
             f"survey:re={'array' if np.ndim(rel) else s['re']['kind']}",
@@ -585,9 +808,9 @@ def build_sim(s, rec, tmpdir):
     if s['layered_opts'] is not None:
         kw['layered_opts'] = json.loads(json.dumps(s['layered_opts']))
     if gridding == 'input':
-        kw['gridding_opts'] = gen.build_grid(s['grid2'])
+        kw['gridding_opts'] = _mesh(s['grid2'], s['grid2'].get('dgrid'), rec)
     elif gridding == 'dict':
-        g2 = gen.build_grid(s['grid2'])
+        g2 = _mesh(s['grid2'], s['grid2'].get('dgrid'), rec)
         kw['gridding_opts'] = {
             sk: {fk: (g2 if (i+j) % 2 else grid)
                  for j, fk in enumerate(survey.frequencies)}
@@ -658,45 +881,120 @@ def grid_around(gs, survey):
 
 
 _SIMC = {}
+_SIMC_OBS = {}
+
+
+def _stale_dirs(prefix):
+    """Remove file_dir directories left by processes that are gone (the
+    atheris engine ends with os._exit, so atexit handlers never run)."""
+    for d in os.listdir(TMPBASE):
+        if not d.startswith(prefix):
+            continue
+        try:
+            os.kill(int(d[len(prefix):]), 0)
+        except (ValueError, ProcessLookupError):
+            shutil.rmtree(os.path.join(TMPBASE, d), ignore_errors=True)
+        except OSError:
+            pass
 
 
 def computed_sim(stage):
-    """Three tiny computed simulations, built once per process, read-only."""
+    """Tiny computed simulations, each built once per process on first use
+    and never changed by the checker.  Stages computed/misfit/gradient: all
+    fields of one electric dipole, 3 receivers, 2 frequencies on the model
+    grid; the other stages vary what the `_dict_*` stores hold."""
     import emg3d
-    if not _SIMC:
-        hx = np.array([80., 100., 120., 100.])
-        grid = emg3d.TensorMesh([hx, hx[::-1], hx], origin=(-200, -190, -210))
-        rng = gen.rng_of(17, 170)
-        sig = 10.0**rng.uniform(-0.5, 0.5, grid.shape_cells)
+    if stage in _SIMC:
+        return _SIMC[stage]
+    hx = np.array([80., 100., 120., 100.])
+    grid = emg3d.TensorMesh([hx, hx[::-1], hx], origin=(-200, -190, -210))
+    rng = gen.rng_of(17, 170)
+    sig = 10.0**rng.uniform(-0.5, 0.5, grid.shape_cells)
 
-        def mk(data=None):
-            model = emg3d.Model(grid, sig, mapping='Conductivity')
-            src = [emg3d.TxElectricDipole((-50, 20, -30, 10, 20), 1+0.5j)]
-            rx = [emg3d.RxElectricPoint((30, 50, -20, 0, 0)),
-                  emg3d.RxMagneticPoint((20, -30, 20, 30, 40)),
-                  emg3d.RxElectricPoint((60, 10, 10, 45, 5), relative=True)]
-            sv = emg3d.Survey(src, rx, [1.0, 2.5], data=data,
-                              noise_floor=1e-15, relative_error=0.05,
-                              name='c17')
-            return emg3d.Simulation(
-                sv, model, gridding='same', max_workers=1,
-                receiver_interpolation='linear',
-                solver_opts={'plain': True, 'tol': 1e-5}, tqdm_opts=False,
-                name='tiny')
-        with warnings.catch_warnings():
-            warnings.simplefilter('ignore')
+    def mk(data=None, two=False, strength=1+0.5j, **kw):
+        model = emg3d.Model(grid, sig, mapping='Conductivity')
+        src = [emg3d.TxElectricDipole((-50, 20, -30, 10, 20), strength)]
+        freq = [1.0, 2.5]
+        if two:                   # other source types, custom keys
+            src = {'Tx 1': src[0],
+                   'mag': emg3d.TxMagneticDipole((10, 40, -35, 10, 5, 25)),
+                   'wire': emg3d.TxElectricWire(
+                       [[-60, 0, 5], [-20, 30, 5], [10, 30, -20]])}
+            freq = {'lo': 1.0, 'f-x': 2.5}
+        rx = [emg3d.RxElectricPoint((30, 50, -20, 0, 0)),
+              emg3d.RxMagneticPoint((20, -30, 20, 30, 40)),
+              emg3d.RxElectricPoint((60, 10, 10, 45, 5), relative=True)]
+        sv = emg3d.Survey(src, rx, freq, data=data,
+                          noise_floor=1e-15, relative_error=0.05,
+                          name='c17')
+        opts = dict(gridding='same', max_workers=1,
+                    receiver_interpolation='linear',
+                    solver_opts={'plain': True, 'tol': 1e-5},
+                    tqdm_opts=False, name='tiny')
+        opts.update(kw)
+        return emg3d.Simulation(sv, model, **opts)
+    with warnings.catch_warnings():
+        warnings.simplefilter('ignore')
+        if 'obs' not in _SIMC_OBS:
             s0 = mk()
             s0.compute(observed=True, add_noise=False)
             obs = s0.data.observed.data.copy()*(1.1+0.05j)
             obs[0, 1, 0] = np.nan+1j*np.nan
+            _SIMC_OBS['obs'] = obs
+        obs = _SIMC_OBS['obs']
+        if stage == 'computed':
             a = mk(obs.copy())
             a.compute()
-            b = mk(obs.copy())
-            b.misfit
-            c = mk(obs.copy())
-            c.gradient
-        _SIMC.update(computed=a, misfit=b, gradient=c)
-    return _SIMC[stage]
+        elif stage == 'misfit':
+            a = mk(obs.copy())
+            a.misfit
+        elif stage == 'gradient':
+            a = mk(obs.copy())
+            a.gradient
+        elif stage == 'partial':        # one of two fields: None and Field
+            a = mk(obs.copy())          # side by side in the stores
+            a.get_efield('TxED-1', 'f-2')
+        elif stage == 'file_dir':       # the stores hold file names
+            prefix = 'c17simc_'
+            _stale_dirs(prefix)
+            fdir = os.path.join(TMPBASE, f"{prefix}{os.getpid()}")
+            shutil.rmtree(fdir, ignore_errors=True)
+            a = mk(obs.copy(), file_dir=fdir)
+            a.compute()
+        elif stage == 'auto_single':    # computational grid != model grid
+            a = mk(obs.copy(), gridding='single',
+                   gridding_opts={'center': (0, 0, 0), 'frequency': 2.0,
+                                  'properties': [1.0, 1.0],
+                                  'domain': ([-100, 100], [-100, 100],
+                                             [-100, 100]),
+                                  'min_width_limits': 50.0,
+                                  'stretching': [1.0, 1.5],
+                                  'center_on_edge': False},
+                   solver_opts={'plain': True, 'tol': 1e-2, 'maxit': 1},
+                   verb=-1)               # (not converged: no message)
+            a.compute()
+        elif stage == 'layered':        # synthetic data only
+            # (real strength: the layered kernel compares it with 0)
+            a = mk(obs.copy(), layered=True, strength=2.0)
+            a.compute()
+        elif stage == 'two_src':        # three source types, custom keys,
+            a = mk(None, two=True,      # Krylov solver info
+                   solver_opts={'sslsolver': 'bicgstab', 'tol': 1e-4,
+                                'semicoarsening': False,
+                                'linerelaxation': False})
+            a.compute()
+        elif stage == 'keepresults':
+            a = mk(obs.copy())
+            a.compute()
+            a.clean('keepresults')
+        elif stage == 'cleaned':
+            a = mk(obs.copy())
+            a.misfit
+            a.clean('computed')
+        else:
+            raise HarnessError(f"computed_sim: unknown stage {stage}")
+    _SIMC[stage] = a
+    return a
 
 
 class Builder:
@@ -706,6 +1004,7 @@ class Builder:
         self.n_inst = 0
         self.n_arr = 0
         self.shape = []         # structural descriptor for distinctness
+        self.made = []          # arrays and instances built so far ('ref')
 
     def value(self, s, depth):
         t = s['t']
@@ -732,14 +1031,29 @@ class Builder:
             return v
         if t == 'none':
             return None
+        if t == 'npscalar':
+            return build_npscalar(s, rec)
+        if t == 'ref':
+            return self.ref(s)
         if t == 'array':
             self.n_arr += 1
-            return build_array(s, rec)
+            out = build_array(s, rec)
+            self.made.append(out)
+            return out
         self.n_inst += 1
         self.n_arr += 1           # every emg3d object holds >= 1 array
         rec.cls(f"obj:{t}")
+        out = self.instance(s, t)
+        if 'copy' in s.get('hist', []) and t in ('model', 'field', 'sim'):
+            rec.cls(f"hist:{t}:copy")
+            out = out.copy()
+        self.made.append(out)
+        return out
+
+    def instance(self, s, t):
+        rec = self.rec
         if t == 'mesh':
-            return gen.build_grid(s['grid'])
+            return _mesh(s['grid'], s.get('dgrid', False), rec)
         if t == 'model':
             m, _ = gen.build_model(_grid(s['grid'], s['dgrid'], rec),
                                    s['model'])
@@ -757,10 +1071,50 @@ class Builder:
         if t == 'sim':
             return build_sim(s, rec, self.tmpdir)
         if t == 'simc':
-            rec.cls(f"simc:{s['stage']}")
-            self.shape.append(s['stage'])
-            return computed_sim(s['stage'])
+            variant = s.get('variant', 'full')
+            stage = s['stage'] if variant == 'full' else variant
+            rec.cls(f"simc:{stage}")
+            self.shape.append(stage)
+            return computed_sim(stage)
         raise ValueError(f"unknown node type {t}")          # harness error
+
+    def ref(self, s):
+        """An object built earlier in this graph, or a part of it, once
+        more (the very same instance, not a copy)."""
+        rec = self.rec
+        if not self.made:
+            rec.cls('ref:nothing_yet')
+            return None
+        x = self.made[s['to'] % len(self.made)]
+        part = s['part']
+        if part == 'array':
+            arrs = [m for m in self.made if isinstance(m, np.ndarray)]
+            x, part = (arrs[s['to'] % len(arrs)], 'self') if arrs else (
+                x, 'self')
+        name = type(x).__name__
+        got = 'self'
+        if part == 'survey' and name == 'Simulation':
+            x, got = x.survey, 'sim.survey'
+        elif part == 'model' and name == 'Simulation':
+            x, got = x.model, 'sim.model'
+        elif part == 'grid' and name in ('Simulation', 'Model', 'Field'):
+            x = x.model.grid if name == 'Simulation' else x.grid
+            got = 'grid:bare_discretize' if _bare_discretize(x) else 'grid'
+            if _bare_discretize(x) and not ENABLE_DMESH:
+                rec.cls('excl:dmesh_disabled')      # discretize mesh inside
+                x, got = self.made[s['to'] % len(self.made)], 'self'
+        elif part == 'source' and name in ('Simulation', 'Survey'):
+            sv = x.survey if name == 'Simulation' else x
+            x = list(sv.sources.values())[s['to'] % len(sv.sources)]
+            got = 'source'
+        rec.cls(f"ref:{got}:{type(x).__name__}")
+        self.shape.append(f"ref:{got}")
+        if isinstance(x, np.ndarray):
+            self.n_arr += 1
+        else:
+            self.n_inst += 1
+            self.n_arr += 1
+        return x
 
     def dict(self, s, depth=1):
         out = {}
@@ -770,6 +1124,17 @@ class Builder:
             self.rec.cls('dict:empty')
             self.shape.append('{}')
         return out
+
+
+def _mesh(gs, dgrid, rec):
+    """A mesh as a saved value of its own: emg3d.TensorMesh or (behind
+    ENABLE_DMESH) a bare discretize.TensorMesh."""
+    if dgrid and not ENABLE_DMESH:
+        rec.cls('excl:dmesh_disabled')
+        dgrid = False
+    if dgrid:
+        rec.cls('mesh:bare_discretize')
+    return _grid(gs, dgrid, rec)
 
 
 def _grid(gs, dgrid, rec):
@@ -796,12 +1161,26 @@ def build_field(s, rec):
     dom = 'none' if f is None else ('frequency' if f > 0 else 'laplace')
     rec.cls(f"field:{dom}:{'complex' if cplx else 'real'}:"
             f"{'e' if s['electric'] else 'h'}")
+    dtype = complex if cplx else float
+    fdt = s.get('fdtype')
+    if f is None and fdt is not None:   # documented: data/dtype decide then
+        dtype = np.dtype('complex64' if cplx else 'float32')  # single prec.
+        rec.cls(f"field:dtype={dtype.name}")
+    ftype = s.get('ftype', 'float')
+    if f is not None and ftype == 'int':
+        f = int(np.sign(f)*max(1, round(abs(f))))
+        rec.cls('field:frequency=int')
+    elif f is not None and ftype == 'np':
+        f = np.float64(f)
+        rec.cls('field:frequency=np.float64')
     if s['data'] == 'none':
         return emg3d.Field(grid, frequency=f, electric=s['electric'],
-                           dtype=(complex if cplx else float))
+                           dtype=dtype)
     d = rng.standard_normal(n)*10.0**rng.integers(-15, 3, n)
     if cplx:
         d = d + 1j*rng.standard_normal(n)*10.0**rng.integers(-15, 3, n)
+    if f is None and fdt is not None:
+        d = d.astype(dtype)
     return emg3d.Field(grid, data=d, frequency=f, electric=s['electric'])
 
 
@@ -833,6 +1212,11 @@ class Node:
 def _is_instance(x):
     return type(x).__name__ in KNOWN and hasattr(x, 'to_dict') and \
         not isinstance(x, dict)
+
+
+def _bare_discretize(x):
+    return (type(x).__name__ == 'TensorMesh' and
+            not type(x).__module__.startswith('emg3d'))
 
 
 def _mesh_view(g):
@@ -889,12 +1273,20 @@ def public_view(x, plain=False, what=None):
                'receiver_interpolation': x.receiver_interpolation,
                'layered_opts': x.layered_opts, 'file_dir': x.file_dir,
                'tol_forward': x.tol_forward, 'tol_gradient': x.tol_gradient}
+        # Constructor parameter without a public attribute, and the ratio of
+        # input to expanded model (both stored by to_dict): only witnesses
+        # of a symmetric omission from to_dict.  Private names are read with
+        # a default, a renamed one only costs sensitivity.
+        for a in ('_tqdm_opts', '_input_sc2'):
+            out[a] = getattr(x, a, 'absent')
         if not plain:
             out['survey'] = x.survey
-            if x._misfit is not None:
+            if getattr(x, '_misfit', None) is not None:
                 out['misfit'] = x.misfit
-            if x._gradient is not None:
+            if getattr(x, '_gradient', None) is not None:
                 out['gradient'] = x.gradient
+            # compute() skips what `_computed` says is there already
+            out['_computed'] = getattr(x, '_computed', 'absent')
         if what in (None, 'computed', 'all'):
             # what get_grid/get_efield/... hand out without recomputing
             for a in ('_dict_grid', '_dict_efield', '_dict_efield_info',
@@ -909,7 +1301,13 @@ PUBLIC = '@public'
 
 
 def canon(x, what=None):
-    """Checker-side canonical tree of anything that was saved or loaded."""
+    """Checker-side canonical tree of anything that was saved or loaded
+    (a snapshot: arrays are copied, so that a later change of the live
+    object cannot reach the tree)."""
+    if _bare_discretize(x):
+        # documented: "stored as if they were created using emg3d"
+        import emg3d
+        x = emg3d.TensorMesh(x.h, x.origin)
     if _is_instance(x):
         name = type(x).__name__
         d = x.to_dict(what) if (name == 'Simulation' and what) else x.to_dict()
@@ -943,7 +1341,7 @@ def canon(x, what=None):
             return Node('foreign', x, cls=f"ndarray0d:{kind}")
         if x.dtype.kind not in 'biufcU':
             return Node('foreign', x, cls=f"ndarray:{x.dtype}")
-        return Node('array', np.asarray(x))
+        return Node('array', np.array(x, copy=True, subok=False))
     if isinstance(x, (int, np.integer)):
         return Node('int', int(x), dtype=getattr(x, 'dtype', None))
     if isinstance(x, (float, np.floating)):
@@ -1240,29 +1638,85 @@ def _raise_diff(fmt, diffs, extra='', details=None, warns=()):
         dict(details or {}, n_differences=len(diffs)))
 
 
+def _call(fn, verb):
+    """Call fn with the verb keyword (not at all if None) -> (returned
+    value, text printed to stdout)."""
+    buf = io.StringIO()
+    with contextlib.redirect_stdout(buf):
+        ret = fn(**({} if verb is None else {'verb': verb}))
+    return ret, buf.getvalue()
+
+
+def _verb_contract(fmt, what, verb, ret, printed, default_verb=1):
+    """-> payload; raises Violation if the documented verb behaviour of
+    save / load / to_file / from_file is not met."""
+    eff = default_verb if verb is None else verb
+    sig = f"{fmt}:{what}:verb={'default' if verb is None else verb}:"
+    if eff < 0:
+        info = ret if what == 'save' else (
+            ret[1] if isinstance(ret, tuple) and len(ret) == 2 else None)
+        if not isinstance(info, str) or not info:
+            raise Violation(
+                sig + 'no_info_string',
+                f"{what} with verb={eff} is documented to return the info "
+                f"string{'' if what == 'save' else ' as second item'}; got "
+                f"{type(ret).__name__}: {str(ret)[:120]}")
+        payload = None if what == 'save' else ret[0]
+    else:
+        if what == 'save' and ret is not None:
+            raise Violation(
+                sig + 'returns_something',
+                f"save with verb={eff} returned {type(ret).__name__}")
+        payload = ret
+    if (eff > 0) != bool(printed.strip()):
+        raise Violation(
+            sig + ('silent' if eff > 0 else 'prints'),
+            f"{what} with verb={eff}: printed {printed[:120]!r} (documented: "
+            "verbose if 1, silent if 0, info returned if -1)")
+    return payload
+
+
 class Leg:
     """One save->load through one format inside a scratch directory."""
 
-    def __init__(self, tmpdir):
+    def __init__(self, tmpdir, spec=None):
+        spec = spec or {}
         self.tmpdir = tmpdir
         self.k = 0
         self.warnings = []
         self.opts = {}          # documented options of save
+        self.stem = spec.get('stem', 'f')
+        self.relative = spec.get('relative', False)
+        self.overwrite = spec.get('overwrite', False)
+        # verb of [save, load]; old specs: 0 (silent) for both
+        self.verb = list(spec.get('verb', [0, 0]))
+        self.save_default_verb = 1      # to_file of a Simulation: its verb
 
     def fname(self, fmt):
         self.k += 1
-        return os.path.join(self.tmpdir, f"f{self.k}.{fmt}")
+        fn = os.path.join(self.tmpdir, f"{self.stem}{self.k}.{fmt}")
+        if self.relative:
+            fn = os.path.relpath(fn)
+        return fn
 
     def save(self, fmt, data, ca, saver=None):
         import emg3d
         fn = self.fname(fmt)
+        if self.overwrite:      # a file of that name, with other content
+            with warnings.catch_warnings():
+                warnings.simplefilter('ignore')
+                emg3d.save(fn, verb=0, zz_old_content={'p': np.arange(3.0)},
+                           zz_old_too=1)
         try:
             with warnings.catch_warnings():
                 warnings.simplefilter('ignore')
                 if saver is None:
-                    emg3d.save(fn, verb=0, **self.opts, **data)
+                    ret, printed = _call(
+                        lambda **kw: emg3d.save(fn, **kw, **self.opts, **data),
+                        self.verb[0])
                 else:
-                    saver(fn)
+                    ret, printed = _call(lambda **kw: saver(fn, **kw),
+                                         self.verb[0])
         except Exception as e:
             fl = []
             foreign_leaves(ca, _root(ca), fl)
@@ -1277,6 +1731,8 @@ class Leg:
                 f"{fmt}:save_raises:{type(e).__name__}:{feat}",
                 f"save to .{fmt} raised {type(e).__name__}: "
                 f"{str(e)[:300]}{at}", {'traceback': _tb_text(e)})
+        _verb_contract(fmt, 'save', self.verb[0], ret, printed,
+                       self.save_default_verb)
         return fn
 
     def load(self, fmt, fn, ca, loader=None, what=None):
@@ -1286,12 +1742,11 @@ class Leg:
             with warnings.catch_warnings(record=True) as wlist:
                 warnings.simplefilter('always')
                 if loader is None:
-                    out = _strip(emg3d.load(fn, verb=0))
+                    ret, printed = _call(lambda **kw: emg3d.load(fn, **kw),
+                                         self.verb[1])
                 else:
-                    out = loader(fn)
-            cb = canon(out, what) if loader else canon(out)
-        except Violation:
-            raise
+                    ret, printed = _call(lambda **kw: loader(fn, **kw),
+                                         self.verb[1])
         except Exception as e:
             # Attribute to what differs in the raw file content, if anything.
             diffs = []
@@ -1314,7 +1769,43 @@ class Leg:
                 {'traceback': _tb_text(e)})
         self.warnings = [str(w.message)[:300] for w in wlist
                          if 'emg3d' in str(w.message)]
+        out = _verb_contract(fmt, 'load', self.verb[1], ret, printed)
+        if loader is None:
+            if not isinstance(out, dict):
+                raise Violation(
+                    f"{fmt}:load:returns:{type(out).__name__}",
+                    f"load returned a {type(out).__name__}, documented: dict")
+            out = _strip(out)
+        # The checker's own evaluation of what came back is outside the
+        # `try` above: an exception raised by checker code is a harness
+        # error, never a finding against emg3d.
+        cb = self._canon_loaded(fmt, out, what if loader else None)
         return out, cb
+
+    @staticmethod
+    def _canon_loaded(fmt, out, what):
+        try:
+            with warnings.catch_warnings():
+                warnings.simplefilter('ignore')
+                return canon(out, what)
+        except (Violation, HarnessError):
+            raise
+        except Exception as e:
+            where = _where(e)
+            if where == 'outside_emg3d':
+                raise HarnessError(
+                    "c17: canonical form of the loaded data: "
+                    f"{type(e).__name__}: {e}\n{_tb_text(e)[-1200:]}")
+            # A documented attribute / to_dict() of a *loaded* instance
+            # raised inside emg3d although the very same evaluation of the
+            # saved instance (tree `ca`, built before the save) went through:
+            # the loaded object does not behave like the saved one.
+            raise Violation(
+                f"{fmt}:loaded_object_raises:{type(e).__name__}:{where}",
+                "evaluating to_dict()/the documented attributes of the "
+                f"loaded object raised {type(e).__name__}: {str(e)[:300]} "
+                "(the same evaluation of the saved object did not)",
+                {'traceback': _tb_text(e)})
 
     @staticmethod
     def _raw_ref(ca, raw, loader):
@@ -1325,9 +1816,31 @@ class Leg:
         return ca
 
 
-def check_leg(leg, fmt, data, ca, prefix=''):
+def _unchanged(fmt, ca, data, what=None, label='save'):
+    """Saving must not change what is saved: the tree taken before (a
+    snapshot, arrays copied) against a fresh tree of the same live objects.
+    Otherwise `load` can at best return the damaged state, and an object
+    shared with later cases (computed simulations) would be damaged for all
+    of them without any difference ever showing."""
+    with warnings.catch_warnings():
+        warnings.simplefilter('ignore')
+        now = canon(data, what) if what else canon(data)
+    diffs = []
+    compare(ca, now, _root(ca), diffs)
+    if diffs:
+        _SIMC.clear()                   # never reuse a damaged instance
+        prio, kind, ctx, pth, msg = _primary(fmt, diffs)
+        raise Violation(
+            f"{fmt}:{label}_changes_saved_object:{kind}:{ctx}",
+            f"the live object differs after {label} at <{pth}>: {msg} "
+            "(before -> after)", {'n_differences': len(diffs)})
+
+
+def check_leg(leg, fmt, data, ca, prefix='', unchanged=True):
     """save+load `data` (tree `ca`) through fmt; returns (loaded, tree)."""
     fn = leg.save(fmt, data, ca)
+    if unchanged:
+        _unchanged(fmt, ca, data)
     out, cb = leg.load(fmt, fn, ca)
     diffs = []
     compare(ca, cb, _root(ca), diffs)
@@ -1337,6 +1850,14 @@ def check_leg(leg, fmt, data, ca, prefix=''):
             extra += f"[warning on load: {leg.warnings[0][:160]}] "
         _raise_diff(fmt, diffs, extra, warns=leg.warnings)
     return fn, out, cb
+
+
+def _file_classes(spec, rec):
+    v = spec.get('verb', [0, 0])
+    rec.cls(f"verb:save={v[0]}", f"verb:load={v[1]}",
+            f"stem={spec.get('stem', 'f')}",
+            f"relative_path={spec.get('relative', False)}",
+            f"overwrite={spec.get('overwrite', False)}")
 
 
 def case_graph(spec, rec):
@@ -1352,14 +1873,17 @@ def case_graph(spec, rec):
         for k in ('compression', 'json_indent', 'verb') + META:
             if k in data:                       # documented: reserved names
                 data[k + '_'] = data.pop(k)
-        ca = canon(data)
+        with warnings.catch_warnings():
+            warnings.simplefilter('ignore')
+            ca = canon(data)
         rec.cls(f"mode={mode}", f"kind={'convert' if '>' in mode else 'rt'}",
                 f"instances={min(b.n_inst, 3)}{'+' if b.n_inst > 3 else ''}")
+        _file_classes(spec, rec)
         if b.n_inst and b.n_arr:
             rec.nt([mode, b.shape, sorted(set(rec.classes))])
         rec.note({'mode': mode, 'instances': b.n_inst, 'arrays': b.n_arr,
                   'top_keys': list(data)[:6]})
-        leg = Leg(tmpdir)
+        leg = Leg(tmpdir, spec)
         leg.opts = {'compression': spec.get('compression', 'gzip'),
                     'json_indent': spec.get('json_indent', 2)}
         rec.cls(f"save_opts={leg.opts['compression']}/"
@@ -1381,9 +1905,10 @@ def case_graph(spec, rec):
         # The same thing done by hand: is a failure B's or convert's own?
         direct = None
         try:
-            leg2 = Leg(tmpdir)
+            leg2 = Leg(tmpdir, dict(spec, stem='byhand', overwrite=False))
             leg2.k = 100
-            check_leg(leg2, fb, out_a, ca_a)
+            leg2.opts = dict(leg.opts)
+            check_leg(leg2, fb, out_a, ca_a, unchanged=False)
         except Violation as v:
             direct = v
         if conv_exc is not None:
@@ -1423,9 +1948,9 @@ def case_tofile(spec, rec):
     """Survey / Simulation through their to_file / from_file methods."""
     fmt = spec['fmt']
     tmpdir = tempfile.mkdtemp(prefix='c17_', dir=TMPBASE)
+    obj = None
     try:
         b = Builder(rec, tmpdir)
-        obj = None
         with warnings.catch_warnings():
             warnings.simplefilter('ignore')
             obj = b.value(spec['obj'], 0)
@@ -1437,22 +1962,33 @@ def case_tofile(spec, rec):
                     'fname') + META:
             name = name + '_'
         kw = {} if name is None else {'name': name}
-        ca = canon(obj, what)
+        again = bool(spec.get('again', False)) and is_sim
+        with warnings.catch_warnings():
+            warnings.simplefilter('ignore')
+            # The object as a plain save sees it (default `what`), taken
+            # before to_dict(what) / to_file is ever called.
+            ca_def = canon({'x': obj}) if is_sim else None
+            ca = canon(obj, what)
         rec.cls(f"fmt={fmt}", f"what={what}",
-                f"name={'custom' if kw else 'default'}")
+                f"name={'custom' if kw else 'default'}", f"again={again}")
+        _file_classes(spec, rec)
         rec.nt([fmt, what, kw, b.shape, sorted(set(rec.classes))])
         rec.note({'fmt': fmt, 'what': what, 'class': type(obj).__name__})
-        leg = Leg(tmpdir)
+        leg = Leg(tmpdir, spec)
         if is_sim:
-            def saver(fn):
-                return obj.to_file(fn, what=what, verb=0, **kw)
-        else:
-            def saver(fn):
-                return obj.to_file(fn, verb=0, **kw)
+            leg.save_default_verb = obj.verb    # documented default
+            rec.cls(f"sim.verb={obj.verb}")
 
-        def loader(fn):
-            return type(obj).from_file(fn, verb=0, **kw)
+            def saver(fn, **vkw):
+                return obj.to_file(fn, what=what, **vkw, **kw)
+        else:
+            def saver(fn, **vkw):
+                return obj.to_file(fn, **vkw, **kw)
+
+        def loader(fn, **vkw):
+            return type(obj).from_file(fn, **vkw, **kw)
         fn = leg.save(fmt, None, ca, saver=saver)
+        _unchanged(fmt, ca, obj, what, label='to_file')
         out, cb = leg.load(fmt, fn, ca, loader=loader, what=what)
         diffs = []
         compare(ca, cb, _root(ca), diffs)
@@ -1461,6 +1997,23 @@ def case_tofile(spec, rec):
             if leg.warnings:
                 extra = f"[warning on load: {leg.warnings[0][:160]}] "
             _raise_diff(fmt, diffs, extra, warns=leg.warnings)
+        if again:
+            # The next serialisation of the same object is an ordinary one:
+            # `what` of the to_file call must not stick to the object.
+            leg3 = Leg(tmpdir, dict(spec, stem='again', verb=[0, 0],
+                                    overwrite=False))
+            try:
+                check_leg(leg3, fmt, {'x': obj}, ca_def)
+            except Violation as v:
+                raise Violation(
+                    v.signature.replace(f"{fmt}:", f"{fmt}:after_to_file("
+                                        f"what={what}):", 1),
+                    f"[emg3d.save(x=sim) after sim.to_file(what={what!r})] "
+                    + v.message, v.details)
+        elif is_sim:
+            # ... and the whole exercise has left the simulation as it was
+            # (with every `what`, not only the one that was written).
+            _unchanged(fmt, ca_def, {'x': obj}, label=f"to_file(what={what})")
     finally:
         if hasattr(obj, '_what_to_file'):        # never leak into the cache
             delattr(obj, '_what_to_file')
@@ -1501,8 +2054,8 @@ def run(ctx):
     # message names the path and both values; the thorough tier shrinks).
     shrink = not ctx.quick
     ctx.explore('graph', GRAPH, _skipping(ctx, case_graph, confirmed),
-                ctx.n(700, 2500), max_rounds=30, shrink=shrink)
+                ctx.n(650, 2500), max_rounds=30, shrink=shrink)
     ctx.explore('tofile', TOFILE, _skipping(ctx, case_tofile, confirmed),
-                ctx.n(300, 1000), max_rounds=30, shrink=shrink)
+                ctx.n(280, 1000), max_rounds=30, shrink=shrink)
     # coverage-guided campaign over the same strategy / oracle
     ctx.fuzz('graph', ctx.n(250, 4000), max_len=8192)
